@@ -8,6 +8,7 @@ use crate::verif_spec as spec;
 // @harness c15_l1_entry
 // @props C15 C14 C03
 // @tier quick
+// @cost 24
 // @timeout 300
 // @desc L1Entry decode/validate and L1Table::map_l2_offset: l2_offset = bits 9..55, COPIED = bit 63; try_from_plain accepts every spec-valid entry and everything it accepts is cluster aligned with bits 1-8 and 56-62 clear; map_l2_offset(i, off) stores exactly COPIED|off big-endian at byte 8*i, touches no other entry and queues the containing block as dirty
 // @bounds raw: all u64; geometry symbolic; 8-entry table with arbitrary content; off: any aligned offset < 2^56
@@ -74,6 +75,7 @@ fn c15_l1_entry() {
 // @harness c12_l1_header_entries
 // @props C12
 // @tier quick
+// @cost 1
 // @timeout 300
 // @desc L1Table bounds bookkeeping: in_bounds(i) <=> i < header_entries; update_header_entries(n) for n <= entries() does not panic and makes exactly the first n entries in-bounds
 // @bounds 8-entry table; every n, i
